@@ -108,6 +108,9 @@ def parseWord (w : String) : Option Uuid.Word :=
   mcql <kind> <content>                → ok <16 bytes> | err               (gocql.Marshal of a uuid column value)
   ucqln <col> <kind> <prev|nilptr> <data|null|-> → ok|err nilptr|<content of the NEW pointee>  (gocql.Unmarshal into a **T)
   ucqlnt <col> <prev|nilptr> <data|null> → ok|err nilptr|<sec.nsec>          (gocql.Unmarshal into a **time.Time)
+  randn <hex, any length>              → ok <uuid> v=4 var=2 must=ok | err <16 bytes, partly filled> must=panic   (RandomUUID / MustRandomUUID
+                                         when rand.Reader can deliver only these bytes)
+  mcqlx <unset|nilval|int|…>           → ok null | err                      (gocql.Marshal of the remaining value kinds)
   mcqlp <hex16|nil>                    → ok null|<16 bytes>                (gocql.Marshal of a *UUID)
   useq <prev16> <step>...              → ok:<dst>|err:<dst> per step, all on ONE destination
   rtdirty <prev16> <u16>               → u (every printer → every decoder, destination holding prev)
@@ -182,6 +185,15 @@ def step (_ : Unit) (ws : List String) : Unit × String :=
         let io := fun (b : Bool) => if b then "in" else "out"
         s!"incl={io (decide (ta ≤ ts) && decide (ts ≤ tb))} excl={io (decide (ta < ts) && decide (ts < tb))}"
       | _, _, _, _, _ => "bad-op"
+  | ["randn", h] => match parseHex h with                               -- C19_random_total
+      | some bs =>
+        let r := Uuid.randomUUID bs
+        if r.1 then s!"ok {toHex r.2} v={Uuid.version r.2} var={Uuid.variant r.2} must=ok" else s!"err {toHex r.2} must=panic"
+      | none => "bad-op"
+  | ["mcqlx", k] =>   -- marshalUUID: UnsetValue and a nil interface are a null column, any other Go type an error
+      if k == "unset" || k == "nilval" then "ok null"
+      else if k == "int" || k == "float" || k == "bool" || k == "time" || k == "arr15" || k == "uuidslice" then "err"
+      else "bad-op"
   | ["randchk", h] => match parseHex h with                             -- C19_random_v4
       | some u => s!"v={Uuid.version (Uuid.stampV4 u)} var={Uuid.variant (Uuid.stampV4 u)}"
       | none => "bad-op"
